@@ -22,7 +22,7 @@ DRIVERS = ['inst_containers.cpp']
 
 
 def run(ctx):
-    units = [os.path.join(ir.VERIF, 'drivers', d) for d in DRIVERS]
+    units = [os.path.join(ir.VERIF, 'drivers', d) for d in DRIVERS + (['inst_containers_thorough.cpp'] if ctx.tier == 'thorough' else [])]
     lib = ir.library_units() if ctx.tier == 'thorough' else []
     prog = ir.load_units(units + lib, force_inst=units)
     ctx.use_program(prog)
